@@ -389,6 +389,7 @@ func (e *Environment) update(name string, found, val Object) Object {
 	}
 	if rr, ok := found.(Reference); ok {
 		log.Debugf("SetNoChecks(%s) updating ref %s in %d", name, rr.Name, rr.RefEnv.depth)
+		e.getMiss++ // same as above, through an existing reference.
 		e = rr.RefEnv
 		name = rr.Name
 	}
@@ -413,6 +414,7 @@ func (e *Environment) SetNoChecks(name string, val Object, create bool) Object {
 	// New name... let's see if it's really new or making it a ref.
 	if ref, ok := e.makeRef(name); ok {
 		log.Debugf("SetNoChecks(%s) created ref %s in %d", name, ref.Name, ref.RefEnv.depth)
+		e.getMiss++ // writing a variable of an enclosing scope is a side effect whatever it holds: not memoizable.
 		ref.RefEnv.store[ref.Name] = Value(val) // kinda neat to make aliases but it can create loops, so not for now.
 		return val
 	}
